@@ -352,11 +352,20 @@ class Walker:
             kinds = [k for i, k in enumerate(kinds) if k != 'charset' or i == 0]
             if r.random() < 0.5:
                 kinds.insert(r.randint(0, len(kinds)), 'comment')
+        # the namespace rules first, so that selectors only use URIs whose prefix is unambiguous in this text (one
+        # non-empty prefix, declared once, URI declared once): whether such a rule is accepted or refused by the
+        # parser, the text written for the selector is the same
+        nss = {i: self.spec('namespace', []) for i, k in enumerate(kinds) if k == 'namespace'}
+        pres = [s.pre for s in nss.values()]
+        uris = [s.uri for s in nss.values()]
         specs, decl = [], []
-        for k in kinds:
-            s = self.spec(k, list(decl))
-            if k == 'namespace' and s.pre:
-                decl.append(s.uri)
+        for i, k in enumerate(kinds):
+            if k == 'namespace':
+                s = nss[i]
+                if s.pre and pres.count(s.pre) == 1 and uris.count(s.uri) == 1:
+                    decl.append(s.uri)
+            else:
+                s = self.spec(k, list(decl))
             specs.append(s)
         return specs
 
